@@ -52,7 +52,22 @@ def wide_ledger(rng, n_sec=None, years=None):
                 if rng.random() < 0.05:
                     txs.append({"date": iso(D + dt.timedelta(days=3)), "ticker": tk, "kind": "BUY", "amount": str(rng.randint(1, 30)),
                                 "price": [str(rng.randint(1, 90)), "GBP"], "fees": ["0", "GBP"]})
+                if rng.random() < 0.04:
+                    txs.append({"date": iso(D), "ticker": tk, "kind": "ACCUMULATION", "amount": "1",
+                                "total": [str(rng.randint(1, 50)), "GBP"], "tax": ["0", "GBP"]})
+                if rng.random() < 0.02:
+                    txs.append({"date": iso(D + dt.timedelta(days=40)), "ticker": tk, "kind": "SPLIT", "ratio": "2"})
+    # line order of the input: fully shuffled; chronological with the lines of one date in arbitrary order (the common
+    # hand-kept ledger: a code path that "skips the sort when already sorted" is only reached by this one);
+    # reverse-chronological; grouped by security
     rng.shuffle(txs)
+    how = rng.choice(["shuffled", "by_date_only", "by_date_only", "reverse_date", "by_ticker"])
+    if how == "by_date_only":
+        txs.sort(key=lambda t: t["date"])
+    elif how == "reverse_date":
+        txs.sort(key=lambda t: t["date"], reverse=True)
+    elif how == "by_ticker":
+        txs.sort(key=lambda t: t["ticker"])
     return txs
 
 
@@ -74,6 +89,10 @@ def order_predicates(rep_wire, plain=None):
         keys = [(y, m, d_, tk) for d_, m, y, tk in tl]
         if keys != sorted(keys):
             v.append("text-report transactions not by (date, ticker)")
+        el = re.findall(r"^(\d\d)/(\d\d)/(\d{4}) (?:DIVIDEND|ACCUMULATION|CAPRETURN|SPLIT|UNSPLIT) (\S+) ", plain, flags=re.M)
+        ekeys = [(y, m, d_, tk) for d_, m, y, tk in el]
+        if ekeys != sorted(ekeys):
+            v.append("text-report asset events not by (date, ticker)")
         hl = re.findall(r"^(\S+): \S+ units at", plain, flags=re.M)
         if hl != sorted(hl):
             v.append(f"text-report holdings not by ticker: {hl[:8]}")
@@ -141,40 +160,64 @@ def run_hooked(desc):
 MASKS = [(re.compile(rb"# Converted: [^\n]*"), b"# Converted: <masked>")]
 
 
-def run_procs(desc):
-    """One input, 16 fresh processes per command: byte-identical output (each process has fresh hash seeds)."""
+def mcp_requests(rng, txs):
+    """The same handful of tool calls for every server process: reports, an explanation, and the error answers that
+    enumerate things (a ticker without disposals in that year lists the tickers that have some)."""
+    from ..mcpdrv import call
+    text = render_dsl(txs)
+    sells = [t for t in txs if t["kind"] == "SELL"]
+    s0 = rng.choice(sells)
+    from ..util import tax_year_of, d as pdate
+    reqs = [call("r1", "calculate_report", {"transactions": text}),
+            call("r2", "calculate_report", {"transactions": text, "year": tax_year_of(pdate(s0["date"]))}),
+            call("r3", "explain_matching", {"transactions": text, "disposal_date": s0["date"], "ticker": s0["ticker"]}),
+            call("r4", "explain_matching", {"transactions": text, "disposal_date": s0["date"], "ticker": "NOSUCH"}),
+            call("r5", "parse_transactions", {"transactions": text}),
+            call("r6", "convert_to_dsl", {"transactions": text}),
+            {"jsonrpc": "2.0", "id": "r7", "method": "tools/list"},
+            {"jsonrpc": "2.0", "id": "r8", "method": "resources/list"}]
+    never_sold = sorted({t["ticker"] for t in txs} - {t["ticker"] for t in sells})
+    if never_sold:
+        reqs.append(call("r9", "explain_matching", {"transactions": text, "disposal_date": s0["date"], "ticker": never_sold[0]}))
+    return reqs
+
+
+def exec_procs(kind, files, args, requests, nproc, cnt):
+    """Run one command in `nproc` fresh processes (fresh hash seeds each) and compare what they produce.
+    Returns (violations-without-case, outs)."""
     from ..clidrv import Sandbox, ALL_YEARS_TOML
-    rng = rng_for(PROP, desc["seed"], "procs", desc["shard"])
-    cnt = Counter()
     viols = []
-    hashes = set()
-    samples = []
-    i = desc["shard"]
-    kind = ["plain", "json", "parse", "convert", "plain", "json", "pdf", "mcp_explain"][i % 8]
-    nproc = 16
+    outs = []
+    if kind == "mcp":
+        from ..mcpdrv import Session, check_history
+        for n in range(nproc):
+            sess = Session()
+            sess.send(requests)
+            sess.wait_for([r["id"] for r in requests], 120)
+            end = sess.finish()
+            hv, _st, resp = check_history(sess, end)
+            if hv:
+                cnt["mcp_history_problems(routed to C20)"] += len(hv)
+            body = []
+            for r in requests:
+                a_ = dict(resp.get(json.dumps(r["id"]) if False else sess.idkey(r["id"]), {}))
+                a_.pop("id", None)
+                if isinstance(a_.get("result"), dict) and isinstance(a_["result"].get("tools"), list):
+                    # the order in which tools/list enumerates tools is rmcp's, not an output of a cgt-tool command
+                    a_["result"]["tools"] = sorted(a_["result"]["tools"], key=lambda t: t.get("name", ""))
+                body.append(json.dumps(a_, sort_keys=True))
+            outs.append((0, body))
+        per_req = list(zip(*[o[1] for o in outs]))
+        for r, answers in zip(requests, per_req):
+            if len(set(answers)) > 1:
+                name = r.get("params", {}).get("name", r.get("method"))
+                viols.append({"clause": "output-differs-between-processes", "signature": "output-differs-between-processes:mcp:" + str(name),
+                              "detail": f"{len(set(answers))} distinct answers to request {r['id']} ({name}) from {nproc} fresh servers: "
+                                        + " | ".join(sorted(set(x[:150] for x in answers))[:3])})
+        return viols, outs
     with Sandbox(ALL_YEARS_TOML) as sb:
-        if kind == "convert":
-            rows, awards = sm.gen_export(rng, n=(20, 60))
-            # many same-date rows
-            rows = rows + [dict(r) for r in rows[:5]]
-            sb.write("t.json", sm.export_json(rows))
-            args = ["convert", "schwab", "t.json"]
-            if awards:
-                sb.write("a.json", json.dumps(awards))
-                args += ["--awards", "a.json"]
-            inp = rows
-        else:
-            txs = wide_ledger(rng, n_sec=rng.randint(10, 50) if kind != "pdf" else rng.randint(5, 15),
-                              years=rng.randint(5, 15) if kind != "pdf" else 4)
-            sb.write("in.cgt", render_dsl(txs))
-            inp = txs
-            if kind == "parse":
-                args = ["parse", "in.cgt"]
-            elif kind == "pdf":
-                args = None
-            else:
-                args = ["report", "in.cgt", "--format", "json" if kind == "mcp_explain" else kind]
-        outs = []
+        for name, text in files.items():
+            sb.write(name, text)
         day0 = dt.date.today()
         for n in range(nproc):
             if kind == "pdf":
@@ -193,38 +236,84 @@ def run_procs(desc):
                 outs.append((r["exit"], data, r["stderr"]))
         if kind == "pdf" and dt.date.today() != day0:
             cnt["pdf_runs_across_midnight(skipped)"] += 1
-            return {"evaluations": nproc, "nontrivial_hashes": hashes, "counters": cnt, "violations": [], "samples": []}
-    cnt[f"process_runs_{kind}"] += nproc
-    cnt["inputs_" + kind] += 1
-    hashes.add(sha(inp)[:16])
+            return [], None
     distinct = {hashlib.sha256(repr(o[:2]).encode()).hexdigest() for o in outs}
-    case = {"op": "procs", "kind": kind, "input": inp if kind != "convert" else {"rows": inp}}
     if len(distinct) > 1:
         viols.append({"clause": "output-differs-between-processes", "signature": "output-differs-between-processes:" + kind,
-                      "detail": f"{len(distinct)} distinct outputs over {nproc} runs of `{' '.join(args or ['report --format pdf'])}`",
-                      "case": case})
+                      "detail": f"{len(distinct)} distinct outputs over {nproc} runs of `{' '.join(args or ['report --format pdf'])}`"})
     elif outs[0][0] != 0:
         cnt["inputs_rejected_" + kind] += 1
     else:
-        if kind == "json" or kind == "mcp_explain":
+        if kind == "json":
             j = json.loads(outs[0][1])
             ys = [y["period"] for y in j["tax_years"]]
             if ys != sorted(ys):
-                viols.append({"clause": "not-canonically-ordered", "signature": "not-canonically-ordered:tax years", "detail": str(ys), "case": case})
+                viols.append({"clause": "not-canonically-ordered", "signature": "not-canonically-ordered:tax years", "detail": str(ys)})
             for y in j["tax_years"]:
                 keys = [(d["date"], d["ticker"]) for d in y["disposals"]]
                 if keys != sorted(keys):
-                    viols.append({"clause": "not-canonically-ordered", "signature": "not-canonically-ordered:disposals", "detail": str(keys[:6]), "case": case})
+                    viols.append({"clause": "not-canonically-ordered", "signature": "not-canonically-ordered:disposals", "detail": str(keys[:6])})
             hs = [h["ticker"] for h in j["holdings"]]
             if hs != sorted(hs):
-                viols.append({"clause": "not-canonically-ordered", "signature": "not-canonically-ordered:holdings", "detail": str(hs[:8]), "case": case})
+                viols.append({"clause": "not-canonically-ordered", "signature": "not-canonically-ordered:holdings", "detail": str(hs[:8])})
+        if kind == "plain":
+            for msg in order_predicates({"tax_years": [], "holdings": []}, outs[0][1].decode("utf-8", "replace")):
+                viols.append({"clause": "not-canonically-ordered", "signature": "not-canonically-ordered:" + msg.split(" not")[0][:30], "detail": msg})
         if kind == "convert":
             ds = re.findall(rb"^(\d{4}-\d\d-\d\d) ", outs[0][1], flags=re.M)
             if ds != sorted(ds):
-                viols.append({"clause": "not-canonically-ordered", "signature": "not-canonically-ordered:converter output", "detail": "dates decrease", "case": case})
-        if len(samples) < 1:
-            samples.append({"command": " ".join(args or ["report", "in.cgt", "--format", "pdf"]), "processes": nproc,
-                            "distinct_outputs": 1, "bytes": len(outs[0][1])})
+                viols.append({"clause": "not-canonically-ordered", "signature": "not-canonically-ordered:converter output", "detail": "dates decrease"})
+    return viols, outs
+
+
+def run_procs(desc):
+    """One input, 16 fresh processes per command: byte-identical output (each process has fresh hash seeds)."""
+    rng = rng_for(PROP, desc["seed"], "procs", desc["shard"])
+    cnt = Counter()
+    viols = []
+    hashes = set()
+    samples = []
+    i = desc["shard"]
+    kind = ["plain", "json", "parse", "convert", "plain", "json", "pdf", "mcp"][i % 8]
+    nproc = 16 if kind != "mcp" else 6
+    files, args, requests = {}, None, None
+    if kind == "convert":
+        rows, awards = sm.gen_export(rng, n=(20, 60))
+        # many same-date rows
+        rows = rows + [dict(r) for r in rows[:5]]
+        files["t.json"] = sm.export_json(rows)
+        args = ["convert", "schwab", "t.json"]
+        if awards:
+            files["a.json"] = json.dumps(awards)
+            args += ["--awards", "a.json"]
+        inp = rows
+    else:
+        txs = wide_ledger(rng, n_sec=rng.randint(10, 50) if kind not in ("pdf", "mcp") else rng.randint(5, 15),
+                          years=rng.randint(5, 15) if kind not in ("pdf", "mcp") else 4)
+        files["in.cgt"] = render_dsl(txs)
+        inp = txs
+        if kind == "parse":
+            args = ["parse", "in.cgt"]
+        elif kind == "mcp":
+            requests = mcp_requests(rng, txs)
+        elif kind != "pdf":
+            args = ["report", "in.cgt", "--format", kind]
+    vs, outs = exec_procs(kind, files, args, requests, nproc, cnt)
+    if outs is None:
+        return {"evaluations": nproc, "nontrivial_hashes": hashes, "counters": cnt, "violations": [], "samples": []}
+    cnt[f"process_runs_{kind}"] += nproc
+    cnt["inputs_" + kind] += 1
+    hashes.add(sha(inp)[:16])
+    case = {"op": "procs", "kind": kind, "files": files, "args": args, "requests": requests, "nproc": nproc}
+    for x in vs:
+        x["case"] = case
+    viols += vs
+    if not vs and len(samples) < 1 and kind != "mcp":
+        samples.append({"command": " ".join(args or ["report", "in.cgt", "--format", "pdf"]), "processes": nproc,
+                        "distinct_outputs": 1, "bytes": len(outs[0][1])})
+    if not vs and len(samples) < 1 and kind == "mcp":
+        samples.append({"mcp_requests": [r.get("params", {}).get("name", r.get("method")) for r in requests], "server_processes": nproc,
+                        "distinct_answers_per_request": 1})
     return {"evaluations": nproc, "nontrivial_hashes": hashes, "counters": cnt, "violations": viols, "samples": samples}
 
 
@@ -240,7 +329,10 @@ def replay(case):
             vs = [{"clause": "not-canonically-ordered", "signature": "not-canonically-ordered", "detail": m}
                   for m in order_predicates(o["ok"]["report"], o["ok"].get("plain"))]
         return vs, o
-    return [], {"note": "process-repetition cases: re-run the shard"}
+    if case.get("op") == "procs" and "files" in case:
+        vs, outs = exec_procs(case["kind"], case["files"], case.get("args"), case.get("requests"), int(case.get("nproc", 8)), Counter())
+        return vs, {"processes": case.get("nproc"), "kind": case["kind"]}
+    return [], {"note": "process-repetition cases recorded before inputs were kept: re-run the shard"}
 
 
 def finalize(total, tier, seed):
@@ -254,9 +346,11 @@ def finalize(total, tier, seed):
 THRESHOLDS = {"inputs": 100, "failpoint_permutations": 800, "drains_holdings_with_2plus_items": 100,
               "drains_tax_years_with_2plus_items": 100, "drains_disposals_with_2plus_items": 500,
               "process_runs_plain": 90, "process_runs_json": 90, "process_runs_parse": 40, "process_runs_convert": 40,
-              "process_runs_pdf": 40}
+              "process_runs_pdf": 40, "process_runs_mcp": 12}
 RULE = ("ledgers with 4-50 securities, many disposals on one date and 3-15 tax years: (a) hooked library runs "
         "recording the pre-sort order of each HashMap drain and re-run under 8 seeded permutations of every drain (H3 "
         "failpoint) - reports, text and JSON must be identical and canonically ordered; (b) 16 fresh processes per "
         "input and command (report plain/json/pdf, parse, convert schwab) compared byte for byte after masking the "
-        "converter timestamp; distinct by input hash")
+        "converter timestamp, plus 6 fresh `cgt-tool mcp` servers given the same tool calls (reports, explanations and the "
+        "error answers that enumerate tickers); input lines arrive shuffled, chronological with arbitrary order inside a "
+        "date, reverse-chronological or grouped by security; distinct by input hash")
